@@ -22,8 +22,89 @@ def nontrivial(sh):
     return P.count_kind(sh, 'decl') >= 2
 
 
+def shadow_pattern(g, rng):
+    """an enclosing block that refers to a name AFTER a nested block defined and used the same name (and variations:
+    several nested blocks, definitions at every level, chains of variable-to-variable references)"""
+    if rng.random() > 0.45:
+        return g.sheet(nunits=rng.choice([1, 1, 2, 3]), depth=rng.randint(1, 3))
+    names = ['@a', '@b', '@c']
+    vals = ['1px', '2em', 'red', '#abc', '3px solid', '10%', 'bold']
+
+    def val(scope):
+        if scope and rng.random() < 0.3:
+            return [('var', rng.choice(scope))]
+        v = rng.choice(vals).split(' ')
+        out = []
+        for i, w in enumerate(v):
+            if i:
+                out.append(('sp',))
+            out.append(('color', w) if w.startswith('#') else (('num', w) if w[0].isdigit() else ('word', w)))
+        return out
+    sheet = []
+    top = []
+    mentioned = set()          # names that occur inside some variable's value: never redefined afterwards (side condition)
+    for nm in names:
+        if rng.random() < 0.6:
+            v = val([x for x in top])
+            mentioned.update(it[1] for it in v if it[0] == 'var')
+            sheet.append(('var', nm, v))
+            top.append(nm)
+
+    def block(depth, visible, sel):
+        body = []
+        here = list(visible)
+        defined = set()
+
+        def use():
+            if here:
+                body.append(('decl', rng.choice(['width', 'color', 'margin', 'top']), [('var', rng.choice(here))], False))
+        for _ in range(rng.choice([1, 2, 3])):
+            k = rng.random()
+            if k < 0.35:
+                cand = [n for n in names if n not in defined and n not in mentioned]
+                if cand:
+                    nm = rng.choice(cand)
+                    # the value may refer to OTHER visible names only (no self reference)
+                    v = val([x for x in here if x != nm])
+                    mentioned.update(it[1] for it in v if it[0] == 'var')
+                    body.append(('var', nm, v))
+                    defined.add(nm)
+                    if nm not in here:
+                        here.append(nm)
+            elif k < 0.7 and depth > 0:
+                body.append(block(depth - 1, here, [[('class', '.n%d' % rng.randrange(9))]]))
+                use()                    # a use directly after the nested block closed
+            else:
+                use()
+        if not any(s[0] == 'decl' for s in body):
+            body.append(('decl', 'top', [('num', '0')], False))
+        return ('rule', sel, body, {'sp_brace': True})
+    # a name may not be used inside a block before that block's own definition of it: `use` only picks visible names and
+    # definitions come at most once, but a use of an outer binding followed by a local definition would violate the side
+    # condition, so reject such bodies
+    def ok(stmts):
+        for s in stmts:
+            if s[0] == 'rule':
+                used = set()
+                for c in s[2]:
+                    if c[0] == 'decl':
+                        used.update(it[1] for it in c[2] if it[0] == 'var')
+                    elif c[0] == 'var':
+                        if c[1] in used:
+                            return False
+                        used.update(it[1] for it in c[2] if it[0] == 'var')
+                if not ok(s[2]):
+                    return False
+        return True
+    for _ in range(rng.choice([1, 2])):
+        sheet.append(block(rng.choice([1, 2, 3]), top, [[('class', '.r%d' % rng.randrange(9))]]))
+    if rng.random() < 0.3 and top:
+        sheet.append(('rule', [[('class', '.last')]], [('decl', 'width', [('var', rng.choice(top))], False)], {'sp_brace': True}))
+    return sheet if ok(sheet) else None
+
+
 def run(ctx):
-    return P.run_sheets(ctx, 3, FEATURES, 120, 3000, depth=3, all_opts=False, wild=False, nontrivial=nontrivial)
+    return P.run_sheets(ctx, 3, FEATURES, 160, 4000, depth=3, all_opts=False, wild=False, nontrivial=nontrivial, gen_hook=shadow_pattern)
 
 
 replay = P.replay
